@@ -144,7 +144,7 @@ class Ctx(Acc):
     def log(self, *a):
         print(f"[{self.prop} {time.time() - self.t0:6.1f}s]", *a, flush=True)
 
-    def pmap(self, fn, shards, merge=True, chunksize=1):
+    def pmap(self, fn, shards, merge=True, chunksize=1, each=None):
         """Run fn(shard) -> Acc over shards in long-lived worker processes (fork once)."""
         global _POOL_FN
         shards = list(shards)
@@ -156,7 +156,9 @@ class Ctx(Acc):
         if self.jobs <= 1 or len(shards) <= 1:
             for s in shards:
                 r = fn(s)
-                if merge:
+                if each is not None:
+                    each(r)
+                elif merge:
                     self.merge(r)
                 else:
                     results.append(r)
@@ -168,7 +170,9 @@ class Ctx(Acc):
                 if status != "ok":
                     pool.terminate()
                     raise (LibraryRaised if status == "libraise" else HarnessError)(r)
-                if merge:
+                if each is not None:
+                    each(r)  # consumed at once: nothing is kept per shard (memory stays bounded on large frontiers)
+                elif merge:
                     self.merge(r)
                 else:
                     results.append(r)
